@@ -1050,9 +1050,14 @@ def oracle_circuit(case, wr, res):
             elif kind in ('ivp', 'laplace'):
                 want = lap_of(exp, s0)
             elif kind.startswith('n'):
-                want = (noise, Fraction(0)) if (noise is not None and specs[sname].get('nid') in (kind, None)) else None
-                if want is None and noise is None:
+                nid = specs[sname].get('nid')
+                if noise is None:
                     want = Z0
+                elif nid is not None:
+                    want = (noise, Fraction(0)) if kind == nid else Z0
+                else:
+                    # automatic identifier (renamed in every netlist copy): this source's own kind has the amplitude
+                    want = None if pv == Z0 else (noise, Fraction(0))
             if want is not None and pv != want:
                 fp = sorted(fingerprint_spec(specs[sname])) or ['select:' + (kind if not kind.startswith('w:') else 'ac')]
                 for k in fp:
@@ -1383,6 +1388,7 @@ def run(tier='quick', replay=None):
                     wmap, nmap = {}, {}
                     for sname, dump in wr.get('source_sup', {}).items():
                         chk += container_checks('%d/src_%s' % (ci, sname), dump, wmap, nmap, res)
+                        chk += select_checks(ci, sname, dump, wr, wmap, nmap, res)
                     for cat in ('N', 'I'):
                         for name, dump in wr['api'].get(cat, {}).items():
                             chk += container_checks('%d/%s_%s' % (ci, cat, name), dump, wmap, nmap, res)
@@ -1498,13 +1504,64 @@ def explained(label, oracle_keys):
     last = label.split('/')[-1]
     if '/kill_' in label or 'group_' in last or 'full_solution' in last:
         pre = ('kill_except:', 'superposition:', 'scaling')
-    elif last.startswith(('dec_', 'ac_', 'dc', 'kinds', 'transient', 'time', 'laplace')):
+    elif last.startswith(('dec_', 'ac_', 'dc', 'kinds', 'transient', 'time', 'laplace', 'select_')):
         pre = ('decompose:', '__add__:', 'reassembly:', 'container:', 'source-value:', 'select:')
     elif last.startswith(('noise', 'accumulate_n')):
         pre = ('noise:',)
     else:
         pre = ()
     return any(k.startswith(pre) for k in oracle_keys) if pre else False
+
+
+def select_checks(ci, sname, dump, wr, wmap, nmap, res):
+    """V._select / I._select (Superposition.netval / select): the value the sub-netlist of every analysis
+    kind uses for the source is what the container model selects for that kind"""
+    out = []
+    if 'error' in dump or 'parts' not in dump:
+        return out
+    tp = terms_of_parts(dump['parts'], wmap, nmap)
+    if tp is None:
+        return out
+    name = 'sg_' + re.sub(r'[^A-Za-z0-9]', '_', '%d/src_%s' % (ci, sname))
+    defn = 'Definition %s : sig QcIF := [%s].' % (name, '; '.join(tp[0]))
+    for kind, kd in wr['kinds'].items():
+        e = [x for x in kd['elements'] if x['name'] == sname]
+        if not e:
+            continue
+        pv = e[0]['params'].get('pVoc' if dump.get('is_v') else 'pIsc')
+        if pv is None:
+            continue
+        pv = P(pv)
+        kl_ = kind.replace('/', '|')
+        if kind == 'dc':
+            ex = 'eqc (select_t GDC %s) %s' % (name, qi(pv))
+        elif kind.startswith('w:'):
+            w = wid(wmap, kind[2:])
+            ex = 'eqc (phasor_re %d %s) %s && eqc (phasor_im %d %s) %s' % (w, name, qi((pv[0], Fraction(0))), w, name, qi((pv[1], Fraction(0))))
+        elif kind == 'transient':
+            ex = 'eqc (select_s GTR %s) %s' % (name, qi(pv))
+        elif kind in ('ivp', 'laplace'):
+            ex = 'eqc (laplace %s) %s' % (name, qi(pv))
+        elif kind == 'time':
+            if any(t_['key'] == 's' for t_ in tp[1]):
+                continue
+            ex = 'eqc (time %s) %s' % (name, qi(pv))
+        elif kind.startswith('n'):
+            # an unnamed noise source gets a fresh automatic identifier in every copy of the netlist:
+            # identify the source's noise part by position, not by the name of the identifier
+            nk = [t_['key'] for t_ in tp[1] if t_['cls'] == 'n']
+            if len(nk) > 1:
+                continue
+            if not nk or (kind != nk[0] and re.match(r'^n\d+$', nk[0]) is None):
+                ex = 'eqc ci0 %s' % qi(pv)          # a differently named noise kind: this source contributes nothing
+            else:
+                ex = 'eqc (nlookup %d (nstore (noise_items %s))) %s' % (nidnum(nmap, nk[0]), name, qi(pv))
+                if kind != nk[0] and pv == Z0:
+                    continue                         # automatic identifiers: cannot tell which kind belongs to which source
+        else:
+            continue
+        out.append(('%d/src_%s/select_%s' % (ci, sname, kl_), defn, ex))
+    return out
 
 
 def strip_case(case):
